@@ -53,6 +53,10 @@ func (o Op) String() string {
 		return fmt.Sprintf("S(%s,%x)", o.Key, o.Val)
 	case "U":
 		return fmt.Sprintf("U(%s,%d)", o.Key, o.U64)
+	case "R":
+		if o.U64 == 1 {
+			return "R(other-segment-size)"
+		}
 	}
 	return o.K
 }
@@ -238,6 +242,14 @@ func (s *Sys) Apply(o Op) error {
 	case "R":
 		if err := s.W.Close(); err != nil {
 			return fmt.Errorf("close: %w", err)
+		}
+		if o.U64 == 1 {
+			// reopen with another configured segment size (existing segments keep theirs)
+			if s.Cfg.SegSize == 64 {
+				s.Cfg.SegSize = 128
+			} else {
+				s.Cfg.SegSize = 64
+			}
 		}
 		return s.Open()
 	}
